@@ -187,9 +187,11 @@ def symbolic_block(kind, n, pre, dic, d, V, dom):
         prec_w = float(1 / s0._v ** 2 + n / s._v ** 2)
         dic[pre + 'qs'].tensor = torch.tensor([prec_w ** -0.5], dtype=torch.float64)
         sn = S('qs', 'sn')
-        # posterior sd as a symbol tied to the hyper-parameters by  sn^2 (1/s0^2 + n/s^2) == 1, sn > 0
-        dom += [d.lt(0, sid(s0)), d.lt(0, sid(s)), d.lt(0, sid(sn)),
-                d.eq(sid(sn ** 2 * (1 / s0 ** 2 + n / s ** 2)), 1)]
+        # posterior sd as a symbol tied to the hyper-parameters by 1/sn^2 == 1/s0^2 + n/s^2, sn > 0.  The relation is
+        # written with the very denominators 2*scale^2 that Normal.log_prob divides by (one shared inverse each), which
+        # makes it linear for the solver
+        I0, I1, I3 = 1 / (2 * s0 ** 2), 1 / (2 * s ** 2), 1 / (2 * sn ** 2)
+        dom += [d.lt(0, sid(s0)), d.lt(0, sid(s)), d.lt(0, sid(sn)), d.eq(sid(I3), sid(I0 + n * I1))]
         if kind == 'normal':
             data = y
             shift, extra = 0.0, 0.0
@@ -200,13 +202,13 @@ def symbolic_block(kind, n, pre, dic, d, V, dom):
         else:
             data = y
             shift, extra = -float(n), 0.0  # each factor contributes exp(-phi); the Jacobian cancels the prior's
-        qm = sn ** 2 * (m0 / s0 ** 2 + data.sum() / s ** 2 + shift)
+        qm = (2 * sn ** 2) * (m0 * I0 + data.sum() * I1 + shift / 2)
         dic[pre + 'qm'].tensor = qm
-        logZ = (-n * C_LOG_SQRT_2PI - n * s.log() - s0.log() + sn.log() - (data ** 2).sum() / (2 * s ** 2)
-                - m0 ** 2 / (2 * s0 ** 2) + qm ** 2 / (2 * sn ** 2) + extra)
+        logZ = (-n * C_LOG_SQRT_2PI - n * s.log() - s0.log() + sn.log() - (data ** 2).sum() * I1
+                - m0 ** 2 * I0 + qm ** 2 * I3 + extra)
 
         def logq(z):
-            return -(z - qm) ** 2 / (2 * sn ** 2) - sn.log() - C_LOG_SQRT_2PI
+            return -(z - qm) ** 2 * I3 - sn.log() - C_LOG_SQRT_2PI
 
         H = 0.5 + C_HALF_LOG_2PI + sn.log()
         qparams = [dic[pre + 'qm'], dic[pre + 'qs']]
@@ -361,6 +363,7 @@ def run_task(task, tr):
             nb = len(blocks)
             c1 = calls[:]
             lp, lq = obj.p(), obj.q()  # cached values used inside the objective
+            snap1 = (list(t.pcs), list(t.denominators), list(t.domains))
             # ---- second evaluation request, after the event the optimiser fires on the variational parameters
             for b in blocks:
                 for p_ in b['qparams']:
@@ -368,6 +371,7 @@ def run_task(task, tr):
             r2 = obj()
             c2 = calls[len(c1):]
             lp2, lq2 = obj.p(), obj.q()
+            snap2 = (t.pcs[len(snap1[0]):], t.denominators[len(snap1[1]):], t.domains[len(snap1[2]):])
             # ---- back-to-back request without any event
             r3 = obj()
             c3 = calls[len(c1) + len(c2):]
@@ -377,124 +381,19 @@ def run_task(task, tr):
         if t.concretized:
             tr.inconc(f'{label}: concretised {t.concretized[:2]}')
             return
-        for k, c in enumerate(c1):
-            for i in c['z']._ids.reshape(-1).tolist():
-                V[d.args[i][0]] = i
-            dom += zdom(c, blocks[k % nb]['kind'])
-        ctx['V'] = V
+        Vh = dict(V)  # hyper-parameters and data
         allz = {d.args[i][0] for c in calls for i in c['z']._ids.reshape(-1).tolist()}
         z1 = {d.args[i][0] for c in c1 for i in c['z']._ids.reshape(-1).tolist()}
         z2 = {d.args[i][0] for c in c2 for i in c['z']._ids.reshape(-1).tolist()}
-
-        # ------------------------------------------------------------------ structural facts of the run
         ok_calls = (len(c1) == nb and all(c['sample_shape'] == shape for c in c1)
                     and all(c['meth'] == ('sample' if objective == 'KLpq' else 'rsample') for c in c1))
         if not ok_calls:
             tr.inconc(f'{label}: unexpected sampler calls {[(c["cls"], c["meth"], c["sample_shape"]) for c in c1]}')
             return
-        if not (isinstance(lp, SymTensor) and isinstance(lq, SymTensor) and isinstance(r1, SymTensor)):
-            tr.inconc(f'{label}: densities are not symbolic')
+        ctx.update(t=t, blocks=blocks, L=L, dom=dom, Vh=Vh)
+        if not analyse(ctx, 'first request', r1, lp, lq, c1, snap1):
             return
         r1id = sid(r1)
-        entropy = bool(oparams.get('entropy')) and len(shape) == 1 and objective == 'ELBO'
-        shape_ok = tuple(lp.shape) == shape and tuple(lq.shape) == shape and r1.dim() == 0
-        hyp0 = dom
-        lemmas = []
-        failed = False
-        if shape_ok:
-            # -------------------------------------------------------------- L1 per-draw identities
-            w = lp - lq
-            wflat = w._ids.reshape(-1).tolist()
-            pflat = lp._ids.reshape(-1).tolist()
-            zs = [c['z'] for c in c1]  # one draw tensor per block, shape sample_shape + [1]
-            lqc = None
-            for b, z in zip(blocks, zs):
-                term = b['logq'](z).reshape(shape)
-                lqc = term if lqc is None else lqc + term
-            qcflat = lqc._ids.reshape(-1).tolist()
-            idxs = list(range(len(wflat)))
-            for i in idxs:
-                if entropy:
-                    g = d.eq(pflat[i], d.add(L, qcflat[i]))
-                    gl = f'draw {i}: log p(z, data) == log Z + log q_closed(z)'
-                else:
-                    g = d.eq(wflat[i], L)
-                    gl = f'draw {i}: log p(z, data) - log q(z) == log Z'
-                st = decide(ctx, gl, hyp0 + ground_axioms(d, [g]), g, signature(objective, oparams, shape, 'weight-differs-from-logZ'),
-                            kind='weights')
-                lemmas.append(g)
-                failed |= st != 'proved'
-            tr.sample({'case': label, 'log Z': d.to_str(L, 4)[:300], 'value': d.to_str(r1id, 3)[:300],
-                       'draws': sorted(z1)[:6], 'path_conditions': [d.to_str(c, 3)[:80] for c in t.pcs[:4]]})
-        if not shape_ok:
-            failed = True
-            decide(ctx, 'model and variational log densities have the sample shape and the objective is a scalar', hyp0, d.FALSE,
-                   signature(objective, oparams, shape, 'mixes-samples' if objective == 'KLpq' else 'shape'), kind='value')
-        if failed:
-            return
-        # ------------------------------------------------------------------ abstraction of the per-draw weights
-        atoms = (pflat + qcflat if entropy else wflat) + [L]
-        amap = {}
-        for a_ in atoms:  # one fresh variable per per-draw weight and one for log Z
-            if a_ not in amap and d.ops[a_] != 'const':
-                amap[a_] = t.fresh('abs', d.vals[a_])
-        lem_ab = abstract(d, amap, lemmas)
-        # ---- L2 every decision taken on the witness holds on the whole domain (single path region)
-        for c in t.pcs:
-            c_ab = abstract(d, amap, [c])[0]
-            hy = hyp0 + (lem_ab if c_ab != c else [])
-            decide(ctx, f'decision taken on the run holds everywhere: {d.to_str(c, 3)[:120]}', hy + ground_axioms(d, [c_ab]), c_ab,
-                   signature(objective, oparams, shape, 'path-condition'), kind='value')
-        # ---- L3 the value
-        if entropy:
-            H = 0
-            for b in blocks:
-                H = d.add(H, sid(b['H']))
-            mean_q = 0
-            for i in qcflat:
-                mean_q = d.add(mean_q, i)
-            target = d.add(d.add(L, d.div(mean_q, d.const(len(qcflat)))), H)
-            tl = 'value == log Z + mean_s log q_closed(z_s) + H_closed[q]'
-        else:
-            target = L
-            tl = 'value == log Z'
-        goal = d.eq(r1id, target)
-        g_ab = abstract(d, amap, [goal])[0]
-        Lv = amap.get(L, L)
-        mapping = {amap[a_]: Lv for a_ in wflat if a_ in amap} if not entropy else {}
-        flo = float_log_assumptions(d, objective, [shape[0], shape[-1], shape[0] * shape[-1]])
-        hy = lem_ab + log_axioms(d, [g_ab], mapping, d.and_(*lem_ab)) + flo
-        hy += ground_axioms(d, [g_ab] + hy)
-        sig = signature(objective, oparams, shape, 'value-differs-from-logZ')
-        st, r, _ = prove(d, hy, g_ab, timeout=30.0, tr=tr, label=tl, parallel=True)
-        if st != 'proved':
-            # characterise: is it a multiple of log Z ?
-            S_ = shape[0]
-            for mult, name in ((S_, 'returns-S-times-logZ'), (S_ * shape[-1], 'returns-SK-times-logZ')):
-                if mult > 1 and not entropy:
-                    g2 = abstract(d, amap, [d.eq(r1id, d.mul(d.const(mult), L))])[0]
-                    st2, _, _ = prove(d, hy + ground_axioms(d, [g2]), g2, timeout=30.0, tr=tr, label=name, parallel=True)
-                    if st2 == 'proved':
-                        sig = signature(objective, oparams, shape, name)
-                        tl += f' [the solver proves value == {mult} * log Z instead]'
-                        break
-            if objective == 'KLpq' and len(shape) == 2:
-                sig = signature(objective, oparams, shape, 'mixes-samples')
-            # un-abstracted query for a model over the real inputs, then replay
-            hy2 = hyp0 + lemmas + flo
-            st3, r3_, _ = prove(d, hy2 + ground_axioms(d, [goal]), goal, timeout=20.0, get_values=list(V.values()), tr=tr, label=tl,
-                                parallel=True)
-            if st3 == 'proved':
-                st = 'proved'
-            else:
-                settle(ctx, tl, st3, r3_, sig, 'value')
-        # ---- L4 well-definedness
-        obl = [d.not_(d.eq(b_, 0)) for b_ in t.denominators]
-        obl += [d.lt(0, x) if k_ == 'pos' else d.le(0, x) for k_, x in t.domains]
-        if obl:
-            allok = d.and_(*obl)
-            decide(ctx, 'every denominator is non-zero and every log/lgamma argument is positive', hyp0 + lemmas + ground_axioms(d, [allok]),
-                   allok, signature(objective, oparams, shape, 'well-defined'), kind='value')
         # ------------------------------------------------------------------ freshness of the second request
         r2id = sid(r2) if isinstance(r2, SymTensor) else None
         ren = {}
@@ -510,9 +409,9 @@ def run_task(task, tr):
              isinstance(lp2, SymTensor) and isinstance(lq2, SymTensor)
              and set(d.variables(lp2._ids.reshape(-1).tolist())) & allz == z2
              and set(d.variables(lq2._ids.reshape(-1).tolist())) & allz == z2),
-            ('second value is the same function of the new draws (first value with z renamed)',
-             r2id is not None and len(ren) == len(z1) and d.substitute([r1id], ren)[0] == r2id),
         ]
+        same_fn = r2id is not None and len(ren) == len(z1) and d.substitute([r1id], ren)[0] == r2id
+        tr.obligation(f'{label}: second value is the first value with the draws renamed', nontrivial=False)
         for fl, okf in facts:
             tr.obligation(f'{label}:{fl}', nontrivial=False)
             if not okf:
@@ -523,7 +422,11 @@ def run_task(task, tr):
                                  {'kind': 'fresh', 'fire': True, 'task': list(task), 'label': label, 'values': wit})
                 else:
                     tr.inconc(f'{label}: "{fl}" fails symbolically but the concrete run is fresh ({detail})')
-                break
+                return
+        if not same_fn:
+            # a tie (all weights are equal) was broken differently, e.g. in CUBO's max: prove the second request from scratch
+            if not analyse(ctx, 'second request', r2, lp2, lq2, c2, snap2):
+                return
         # back-to-back request
         tr.obligation(f'{label}: back-to-back request draws again', nontrivial=False)
         if not c3:
@@ -534,6 +437,122 @@ def run_task(task, tr):
                              {'kind': 'fresh', 'fire': False, 'task': list(task), 'label': label, 'values': wit})
             else:
                 tr.inconc(f'{label}: back-to-back request did not draw symbolically but does concretely ({detail})')
+
+
+def analyse(ctx, which, r1, lp, lq, c1, snap):
+    """obligations L1-L4 for one evaluation request; False when something was reported"""
+    tr, d, t, task, label, blocks, L = ctx['tr'], ctx['d'], ctx['t'], ctx['task'], ctx['label'], ctx['blocks'], ctx['L']
+    fam, n, objective, oparams, shape = task
+    shape = tuple(shape)
+    pcs, dens, doms = snap
+    nb = len(blocks)
+    V = dict(ctx['Vh'])
+    hyp0 = list(ctx['dom'])
+    for k, c in enumerate(c1):  # draws of this request, under the names the replay uses (z0, z1, ...)
+        kind = blocks[k % nb]['kind']
+        for i in c['z']._ids.reshape(-1).tolist():
+            nm = d.args[i][0]
+            V[f'z{k}' + nm[nm.index('['):]] = i
+            if SAMPLER[kind] == 'Gamma':
+                hyp0.append(d.lt(0, i))
+    ctx['V'] = V
+    if not (isinstance(lp, SymTensor) and isinstance(lq, SymTensor) and isinstance(r1, SymTensor)):
+        tr.inconc(f'{label}: densities are not symbolic')
+        return False
+    r1id = sid(r1)
+    entropy = bool(oparams.get('entropy')) and len(shape) == 1 and objective == 'ELBO'
+    shape_ok = tuple(lp.shape) == shape and tuple(lq.shape) == shape and r1.dim() == 0
+    if not shape_ok:
+        decide(ctx, f'{which}: model and variational log densities have the sample shape and the objective is a scalar', hyp0, d.FALSE,
+               signature(objective, oparams, shape, 'mixes-samples' if objective == 'KLpq' else 'shape'), kind='value')
+        return False
+    # -------------------------------------------------------------- L1 per-draw identities
+    w = lp - lq
+    wflat = w._ids.reshape(-1).tolist()
+    pflat = lp._ids.reshape(-1).tolist()
+    lqc = None
+    for b, c in zip(blocks, c1):  # one draw tensor per block, shape sample_shape + [1]
+        term = b['logq'](c['z']).reshape(shape)
+        lqc = term if lqc is None else lqc + term
+    qcflat = lqc._ids.reshape(-1).tolist()
+    lemmas = []
+    failed = False
+    for i in range(len(wflat)):
+        if entropy:
+            g = d.eq(pflat[i], d.add(L, qcflat[i]))
+            gl = f'{which}: draw {i}: log p(z, data) == log Z + log q_closed(z)'
+        else:
+            g = d.eq(wflat[i], L)
+            gl = f'{which}: draw {i}: log p(z, data) - log q(z) == log Z'
+        st = decide(ctx, gl, hyp0 + ground_axioms(d, [g]), g, signature(objective, oparams, shape, 'weight-differs-from-logZ'),
+                    kind='weights')
+        lemmas.append(g)
+        failed |= st != 'proved'
+    tr.sample({'case': label, 'log Z': d.to_str(L, 4)[:300], 'value': d.to_str(r1id, 3)[:300],
+               'draws': sorted(x for x in V if x.startswith('z'))[:6], 'path_conditions': [d.to_str(c, 3)[:80] for c in pcs[:4]]})
+    if failed:
+        return False
+    # ------------------------------------------------------------------ generalisation of the per-draw weights
+    atoms = (pflat + qcflat if entropy else wflat) + [L]
+    amap = {}
+    for a_ in atoms:  # one fresh variable per per-draw weight and one for log Z
+        if a_ not in amap and d.ops[a_] != 'const':
+            amap[a_] = t.fresh('abs', d.vals[a_])
+    lem_ab = abstract(d, amap, lemmas)
+    clean = True
+    # ---- L2 every decision taken on the witness holds on the whole domain (single path region)
+    for c in pcs:
+        c_ab = abstract(d, amap, [c])[0]
+        hy = (lem_ab if c_ab != c else hyp0)
+        st = decide(ctx, f'{which}: decision taken on the run holds everywhere: {d.to_str(c, 3)[:120]}', hy + ground_axioms(d, [c_ab]), c_ab,
+                    signature(objective, oparams, shape, 'path-condition'), kind='value')
+        clean &= st == 'proved'
+    # ---- L3 the value
+    if entropy:
+        H = 0
+        for b in blocks:
+            H = d.add(H, sid(b['H']))
+        mean_q = 0
+        for i in qcflat:
+            mean_q = d.add(mean_q, i)
+        target = d.add(d.add(L, d.div(mean_q, d.const(len(qcflat)))), H)
+        tl = f'{which}: value == log Z + mean_s log q_closed(z_s) + H_closed[q]'
+    else:
+        target = L
+        tl = f'{which}: value == log Z'
+    goal = d.eq(r1id, target)
+    g_ab = abstract(d, amap, [goal])[0]
+    Lv = amap.get(L, L)
+    mapping = {amap[a_]: Lv for a_ in wflat if a_ in amap} if not entropy else {}
+    flo = float_log_assumptions(d, objective, [shape[0], shape[-1], shape[0] * shape[-1]])
+    hy = lem_ab + log_axioms(d, [g_ab], mapping, d.and_(*lem_ab)) + flo
+    hy += ground_axioms(d, [g_ab] + hy)
+    sig = signature(objective, oparams, shape, 'value-differs-from-logZ')
+    st, r, _ = prove(d, hy, g_ab, timeout=30.0, tr=tr, label=tl, parallel=True)
+    if st != 'proved':
+        # characterise: is it a multiple of log Z ?
+        for mult, name in ((shape[0], 'returns-S-times-logZ'), (shape[0] * shape[-1], 'returns-SK-times-logZ')):
+            if mult > 1 and not entropy:
+                g2 = abstract(d, amap, [d.eq(r1id, d.mul(d.const(mult), L))])[0]
+                st2, _, _ = prove(d, hy + ground_axioms(d, [g2]), g2, timeout=30.0, tr=tr, label=name, parallel=True)
+                if st2 == 'proved':
+                    sig = signature(objective, oparams, shape, name)
+                    tl += f' [the solver proves value == {mult} * log Z instead]'
+                    break
+        if objective == 'KLpq' and len(shape) == 2:
+            sig = signature(objective, oparams, shape, 'mixes-samples')
+        # replay at the witness point (the generalised query has no model over the real inputs)
+        settle(ctx, tl, 'unknown' if st != 'refuted' else 'refuted-abstract', None, sig, 'value')
+        clean = False
+    # ---- L4 well-definedness
+    obl = [d.not_(d.eq(b_, 0)) for b_ in dens]
+    obl += [d.lt(0, x) if k_ == 'pos' else d.le(0, x) for k_, x in doms]
+    if obl:
+        allok = d.and_(*obl)
+        st = decide(ctx, f'{which}: every denominator is non-zero and every log/lgamma argument is positive',
+                    hyp0 + lemmas + ground_axioms(d, [allok]), allok, signature(objective, oparams, shape, 'well-defined'), kind='value')
+        clean &= st == 'proved'
+    return clean
 
 
 def decide(ctx, glabel, hyps, goal, sig, kind):
@@ -548,7 +567,7 @@ def settle(ctx, glabel, st, r, sig, kind):
     tr, d, V, task, label = ctx['tr'], ctx['d'], ctx['V'], ctx['task'], ctx['label']
     rp = replay_weights if kind == 'weights' else replay_value
     tries = []
-    if st == 'refuted' and r is not None:
+    if st == 'refuted' and r is not None and getattr(r, 'values', None):
         tries.append({nm: _to_float(r.values[i]) for nm, i in V.items() if i in r.values})
     tries.append({nm: d.vals[i] for nm, i in V.items()})
     detail = ''
@@ -560,7 +579,7 @@ def settle(ctx, glabel, st, r, sig, kind):
         if ok:
             tr.violation(sig, f'{label}: {glabel} fails: {detail}', {'kind': kind, 'task': list(task), 'label': label, 'values': vals})
             return
-    if st == 'refuted':
+    if st.startswith('refuted'):
         tr.inconc(f'{label}: counterexample for "{glabel}" did not reproduce on the real code ({detail})')
     else:
         tr.inconc(f'{label}: "{glabel}" undecided by the solver portfolio and the witness point agrees ({detail})')
